@@ -25,7 +25,7 @@ instance {α : Type} (o : Option α) (d : Prop) (P : α → Prop) [Decidable d] 
   | some a => inferInstanceAs (Decidable (P a))
 
 /-! ### header views -/
-def Fin  (f : Fields) : Prop := f.tcp.flags.testBit 0 = true
+def FinF (f : Fields) : Prop := f.tcp.flags.testBit 0 = true
 def Syn  (f : Fields) : Prop := f.tcp.flags.testBit 1 = true
 def Rst  (f : Fields) : Prop := f.tcp.flags.testBit 2 = true
 def Psh  (f : Fields) : Prop := f.tcp.flags.testBit 3 = true
@@ -40,7 +40,7 @@ def Mbz  (f : Fields) : Prop := f.ip.flags.testBit 2 = true
 /-- the two ECN bits of the IPv4 TOS byte / IPv6 traffic class -/
 def ipEcn (f : Fields) : Nat := f.ip.ecn % 4
 
-instance (f) : Decidable (Fin f) := by unfold Fin; exact inferInstance
+instance (f) : Decidable (FinF f) := by unfold FinF; exact inferInstance
 instance (f) : Decidable (Syn f) := by unfold Syn; exact inferInstance
 instance (f) : Decidable (Rst f) := by unfold Rst; exact inferInstance
 instance (f) : Decidable (Psh f) := by unfold Psh; exact inferInstance
@@ -141,16 +141,21 @@ def Item.tok : Item → TcpOption
 def Area.layout (a : Area) : List TcpOption :=
   a.items.map Item.tok ++ (match a.pad with | none => [] | some p => [.eol p.length])
 
-def mssValues (a : Area) : List Nat :=
-  a.items.filterMap fun i => match i with | .opt 2 [x, y] => some (x * 256 + y) | _ => none
-def wsValues (a : Area) : List Nat :=
-  a.items.filterMap fun i => match i with | .opt 3 [x] => some x | _ => none
-/-- `(TSval, TSecr)` of each timestamp option -/
-def tsValues (a : Area) : List (Nat × Nat) :=
-  a.items.filterMap fun i => match i with
-    | .opt 8 [a, b, c, d, e, f, g, h] =>
-      some (((a * 256 + b) * 256 + c) * 256 + d, ((e * 256 + f) * 256 + g) * 256 + h)
-    | _ => none
+def Item.mssVal : Item → Option Nat
+  | .opt 2 [x, y] => some (x * 256 + y)
+  | _ => none
+def Item.wsVal : Item → Option Nat
+  | .opt 3 [x] => some x
+  | _ => none
+/-- `(TSval, TSecr)` of a timestamp option -/
+def Item.tsVal : Item → Option (Nat × Nat)
+  | .opt 8 [a, b, c, d, e, f, g, h] =>
+    some (((a * 256 + b) * 256 + c) * 256 + d, ((e * 256 + f) * 256 + g) * 256 + h)
+  | _ => none
+
+def mssValues (a : Area) : List Nat := a.items.filterMap Item.mssVal
+def wsValues (a : Area) : List Nat := a.items.filterMap Item.wsVal
+def tsValues (a : Area) : List (Nat × Nat) := a.items.filterMap Item.tsVal
 
 /-- The statement does not say which value counts when MSS, window scale or timestamps occur more
 than once: such segments are left unspecified. -/
@@ -258,7 +263,7 @@ instance (f s) : Decidable (SigOk f s) := by
 /-- p0f's sanity filter: SYN with FIN or RST, FIN with RST, and "none of SYN/ACK/FIN/RST" are
 rejected. -/
 def ValidFlags (f : Fields) : Prop :=
-  ¬ (Syn f ∧ (Fin f ∨ Rst f)) ∧ ¬ (Fin f ∧ Rst f) ∧ (Syn f ∨ Ack f ∨ Fin f ∨ Rst f)
+  ¬ (Syn f ∧ (FinF f ∨ Rst f)) ∧ ¬ (FinF f ∧ Rst f) ∧ (Syn f ∨ Ack f ∨ FinF f ∨ Rst f)
 instance (f) : Decidable (ValidFlags f) := by unfold ValidFlags; exact inferInstance
 
 def Nothing (o : Outcome) : Prop :=
@@ -281,23 +286,12 @@ def Holds (f : Fields) (o : Outcome) : Prop :=
   else match o with
     | .error _ => False
     | .ok r =>
-      if Ack f then r.syn = none ∧ r.mtu = none ∧ (∃ s, r.synAck = some s ∧ SigOk f s)
-      else r.synAck = none ∧ MtuOk f r.mtu ∧ (∃ s, r.syn = some s ∧ SigOk f s)
+      if Ack f then r.syn = none ∧ r.mtu = none ∧ onOpt r.synAck False (fun s => SigOk f s)
+      else r.synAck = none ∧ MtuOk f r.mtu ∧ onOpt r.syn False (fun s => SigOk f s)
 
 instance (f o) : Decidable (Holds f o) := by
   unfold Holds
-  cases o with
-  | error e => exact inferInstance
-  | ok r =>
-    have : Decidable (∃ s, r.synAck = some s ∧ SigOk f s) := by
-      cases h : r.synAck with
-      | none => exact isFalse (by simp)
-      | some s => simp; exact inferInstance
-    have : Decidable (∃ s, r.syn = some s ∧ SigOk f s) := by
-      cases h : r.syn with
-      | none => exact isFalse (by simp)
-      | some s => simp; exact inferInstance
-    exact inferInstance
+  cases o <;> exact inferInstance
 
 /-- Domain of the statement: unfragmented TCP segments whose options do not repeat MSS, window scale
 or timestamps. -/
